@@ -464,7 +464,7 @@ def _value_determined_by(f, val, key_names):
         for nm, vals in assigns.items():
             if nm in derived:
                 continue
-            if all(all((not isinstance(x, ast.Name)) or x.id in derived or x.id not in local for x in ast.walk(v))
+            if all(all((not isinstance(x, ast.Name)) or x.id in derived or x.id not in local or x.id == nm for x in ast.walk(v))
                    for v in vals):
                 derived.add(nm)
                 changed = True
